@@ -67,6 +67,7 @@ def chunked_combinations(alphabet: list, sizes: Iterable[int], chunk: int, nchun
 # R: refine_hmmscan_results
 
 R_CONFIGS: dict[str, dict[str, Any]] = {
+    # ---- thorough tier: 6-point grid, three scores
     # A: margin 4, merge span < 30, complete > 10, fallback > 6.67; B: margin 10 (== one grid step),
     # span < 75, complete > 25, fallback > 16.67; hits of A of length 30 == 1.5 L, 40/50 longer
     "r0": {"pos": [0, 10, 20, 30, 40, 50], "lens": {"A": 20, "B": 50}, "scores": [1, 2, 3]},
@@ -75,10 +76,24 @@ R_CONFIGS: dict[str, dict[str, Any]] = {
     # A: margin 20 (== two grid steps), nothing complete (50 == threshold), fallback > 33.3;
     # regulatorB: span < 90, complete > 30 (== length 30), fallback > 20 (== length 20)
     "r2": {"pos": [0, 10, 20, 30, 40, 50], "lens": {"A": 100, "regulatorB": 60}, "scores": [1, 2, 3]},
-    # reduced alphabet for sets of four
-    "r4": {"pos": [0, 10, 20, 30, 40], "lens": {"A": 20, "B": 50}, "scores": [1, 2]},
+    # the same with two scores (sets of four)
+    "r0s": {"pos": [0, 10, 20, 30, 40, 50], "lens": {"A": 20, "B": 50}, "scores": [1, 2]},
+    "r1s": {"pos": [0, 10, 20, 30, 40, 50], "lens": {"A": 30, "B": 30}, "scores": [1, 2]},
+    "r2s": {"pos": [0, 10, 20, 30, 40, 50], "lens": {"A": 100, "regulatorB": 60}, "scores": [1, 2]},
     # odd grid: overlaps 3/4/5 around the margin 4 of A, 9/10/11 around the margin 10 of B
     "r5": {"pos": [0, 6, 10, 15, 19, 30], "lens": {"A": 20, "B": 50}, "scores": [1, 2]},
+    # ---- quick tier
+    "q0": {"pos": [0, 10, 20, 30, 40, 50], "lens": {"A": 20, "B": 50}, "scores": [1, 2]},
+    # A: margin 6, complete > 15, fallback > 10 (== length 10); B: margin 4, span < 30, complete > 10
+    "q1": {"pos": [0, 10, 20, 30, 40], "lens": {"A": 30, "B": 20}, "scores": [1, 2]},
+    # A: margin 20 (== two steps), nothing complete, fallback > 33.3; regulatorB: complete > 30, fallback > 20
+    "q2": {"pos": [0, 10, 20, 30, 40], "lens": {"A": 100, "regulatorB": 60}, "scores": [1, 2]},
+    # three scores (ties and strict orders among three) on a 4-point grid
+    "q3": {"pos": [0, 10, 20, 30], "lens": {"A": 20, "B": 50}, "scores": [1, 2, 3]},
+    # sets of four on a 4-point grid
+    "q4": {"pos": [0, 10, 20, 30], "lens": {"A": 20, "B": 50}, "scores": [1, 2]},
+    # overlaps 4 (== margin of A), 6, 10 (== margin of B), lengths 4, 6, 10, 14, 16, 20
+    "q5": {"pos": [0, 6, 10, 16, 20], "lens": {"A": 20, "B": 50}, "scores": [1, 2]},
 }
 
 
@@ -259,14 +274,19 @@ def incomplete_oracle(doms: list[list], lens: dict[str, int], threshold: Fractio
 
 H_CONFIGS: dict[str, dict[str, Any]] = {
     # overlap == limit at one grid step; normalised ties: PF1 20/10 == PF2 40/20, PF1 30/10 == PF2 60/20
-    "h0": {"pos": [0, 10, 20, 30, 40, 50], "cutoffs": {"PF1": 10, "PF2": 20}, "scores": {"PF1": [20, 30], "PF2": [40, 50, 60]},
-           "limit": 10},
-    # overlaps 9 / 10 / 11 around the limit, nested short hits (length 4, 5)
-    "h1": {"pos": [0, 9, 10, 19, 20, 30], "cutoffs": {"PF1": 10, "PF2": 20}, "scores": {"PF1": [20, 30], "PF2": [40, 50]},
-           "limit": 10},
+    "h0": {"pos": [0, 10, 20, 30, 40, 50], "cutoffs": {"PF1": 10, "PF2": 20},
+           "scores": {"PF1": [20, 30], "PF2": [40, 60]}, "limit": 10},
+    # overlaps 9 / 10 / 11 around the limit, hits shorter than the limit (length 1, 9), nested short hits
+    "h1": {"pos": [0, 9, 10, 19, 20], "cutoffs": {"PF1": 10, "PF2": 20},
+           "scores": {"PF1": [20, 30], "PF2": [40, 50]}, "limit": 10},
     # another limit
-    "h2": {"pos": [0, 4, 5, 9, 10, 15], "cutoffs": {"PF1": 10, "PF2": 30}, "scores": {"PF1": [20, 30], "PF2": [60, 45]},
-           "limit": 5},
+    "h2": {"pos": [0, 4, 5, 9, 10], "cutoffs": {"PF1": 10, "PF2": 30},
+           "scores": {"PF1": [20, 30], "PF2": [60, 45]}, "limit": 5},
+    # thorough: three scores / six points
+    "h3": {"pos": [0, 10, 20, 30, 40, 50], "cutoffs": {"PF1": 10, "PF2": 20},
+           "scores": {"PF1": [20, 30], "PF2": [40, 50, 60]}, "limit": 10},
+    "h4": {"pos": [0, 9, 10, 19, 20, 30], "cutoffs": {"PF1": 10, "PF2": 20},
+           "scores": {"PF1": [20, 30], "PF2": [40, 50]}, "limit": 10},
 }
 
 
@@ -450,18 +470,6 @@ def f_tied_best_in_profile(hits: list[list]) -> bool:
     return any(len(s) > 1 and s.count(max(s)) > 1 for s in groups.values())
 
 
-def f_long_chain(hits: list[list]) -> bool:
-    """ an overlapping group (per gene) with >= 4 hits that is not a clique: the incremental
-        group building of filter_results can leave it split into two overlapping sets """
-    for cds in {h[1] for h in hits}:
-        idxs = [i for i, h in enumerate(hits) if h[1] == cds]
-        for comp in f_components(hits, idxs):
-            if len(comp) >= 4 and any(inter(hits[i][2], hits[i][3], hits[j][2], hits[j][3]) <= 20
-                                      for n, i in enumerate(comp) for j in comp[n + 1:]):
-                return True
-    return False
-
-
 # ------------------------------------------------------------------------------------------
 # classes of inputs behind the known findings of refine_hmmscan_results (used by
 # C13.FINDING_CLASSES; each is a predicate over the input, the clause and, where stored,
@@ -511,3 +519,19 @@ def r_pair_with_hit_between(hits: list[list], lens: dict[str, int], out: list[li
                 return False
             found = True
     return found
+
+
+def h_short_first(hits: list[list], limit: int) -> bool:
+    """ a hit with the smallest start is shorter than the limit (remove_overlapping then closes the
+        first group twice) """
+    first = min(h[1] for h in hits)
+    return any(h[1] == first and h[2] - h[1] < limit for h in hits)
+
+
+def h_equal_start_short(hits: list[list], limit: int) -> bool:
+    """ two hits with the same start, one of them shorter than the limit """
+    for i, x in enumerate(hits):
+        for y in hits[i + 1:]:
+            if x[1] == y[1] and min(x[2] - x[1], y[2] - y[1]) < limit:
+                return True
+    return False
